@@ -13,6 +13,7 @@ import (
 	"github.com/anyproto/any-sync/commonspace/object/acl/recordverifier"
 	"github.com/anyproto/any-sync/commonspace/spacepayloads"
 	"github.com/anyproto/any-sync/consensus/consensusproto"
+	"github.com/anyproto/any-sync/util/crypto"
 	"pgregory.net/rapid"
 
 	"verif/harness/internal/mutate"
@@ -87,6 +88,60 @@ func aclKeys(ps *pairSpace, who int) (read, meta []byte, oneToOne bool, err erro
 	return read, meta, state.IsOneToOne(), nil
 }
 
+// relatedPubs returns public keys algebraically related to pk that a careless key agreement
+// could confuse with it: the sign-flipped point -P (same Montgomery u coordinate, hence the
+// same X25519 secret). Only encodings that unmarshal as valid ed25519 public keys are returned.
+func relatedPubs(pk crypto.PubKey) []crypto.PubKey {
+	raw, err := pk.Raw()
+	if err != nil || len(raw) != 32 {
+		return nil
+	}
+	neg := append([]byte(nil), raw...)
+	neg[31] ^= 0x80
+	var out []crypto.PubKey
+	if k, err := crypto.UnmarshalEd25519PublicKey(neg); err == nil && !k.Equals(pk) {
+		out = append(out, k)
+	}
+	return out
+}
+
+// checkRelated: (x_sk, related(y_pk)) must not derive what (x_sk, y_pk) derives - neither the
+// shared owner key, nor header / ACL root / ids, nor the read and metadata keys.
+func checkRelated(x, y int, typ string, orig *pairSpace, origRead []byte) (n int, err error) {
+	origShared, err := crypto.GenerateSharedKey(key(x), key(y).GetPublic(), crypto.AnysyncOneToOneSpacePath)
+	if err != nil {
+		return 0, err
+	}
+	for _, rel := range relatedPubs(key(y).GetPublic()) {
+		n++
+		sh, err := crypto.GenerateSharedKey(key(x), rel, crypto.AnysyncOneToOneSpacePath)
+		if err != nil {
+			continue // refusing the related key is fine
+		}
+		if sh.GetPublic().Equals(origShared.GetPublic()) {
+			return n, fmt.Errorf("(%d_sk, -%d_pk) derives the shared owner key of (%d_sk, %d_pk): another key pair derives the same one-to-one space keys", x, y, x, y)
+		}
+		out, err := spacepayloads.StoragePayloadForOneToOneSpaceWithType(key(x), rel, typ)
+		if err != nil {
+			continue
+		}
+		if out.SpaceHeaderWithId.Id == orig.parts[pHdr].Id || out.AclWithId.Id == orig.parts[pAcl].Id || out.SpaceSettingsWithId.Id == orig.parts[pSet].Id {
+			return n, fmt.Errorf("type %s: (%d_sk, -%d_pk) derives ids of the space of (%d,%d)", typ, x, y, x, y)
+		}
+		hc, hc0 := mustContent(out.SpaceHeaderWithId.RawHeader), mustContent(orig.parts[pHdr].Bytes)
+		if string(bytesVal(hc, hdrIdentity)) == string(bytesVal(hc0, hdrIdentity)) {
+			return n, fmt.Errorf("type %s: (%d_sk, -%d_pk) derives the owner identity of the space of (%d,%d)", typ, x, y, x, y)
+		}
+		ps := &pairSpace{x: x, y: -1, typ: typ}
+		ps.parts[pAcl] = part{out.AclWithId.Payload, out.AclWithId.Id}
+		r, _, _, err := aclKeys(ps, x)
+		if err == nil && r != nil && string(r) == string(origRead) {
+			return n, fmt.Errorf("type %s: (%d_sk, -%d_pk) derives the read key of the space of (%d,%d)", typ, x, y, x, y)
+		}
+	}
+	return n, nil
+}
+
 func runPairs(c PairCase) (vstat.Outcome, error) {
 	var out vstat.Outcome
 	a, b, cc, d := mutate.Mod(c.A, keyPool), mutate.Mod(c.B, keyPool), mutate.Mod(c.C, keyPool), mutate.Mod(c.D, keyPool)
@@ -111,6 +166,7 @@ func runPairs(c PairCase) (vstat.Outcome, error) {
 		return ps, nil
 	}
 	var readAB []byte
+	related := 0
 	for _, typ := range types {
 		ab, err := derive(a, b, typ)
 		if err != nil {
@@ -148,6 +204,16 @@ func runPairs(c PairCase) (vstat.Outcome, error) {
 			return out, fmt.Errorf("the two one-to-one types derive different read keys for the same pair")
 		}
 		readAB = ra
+		// related public keys, in both roles
+		n1, err := checkRelated(a, b, typ, ab, ra)
+		if err != nil {
+			return out, err
+		}
+		n2, err := checkRelated(b, a, typ, ab, ra)
+		if err != nil {
+			return out, err
+		}
+		related += n1 + n2
 		if cc != a && cc != b {
 			rc, mc, _, err := aclKeys(ab, cc)
 			if err == nil && (rc != nil || mc != nil) {
@@ -198,6 +264,10 @@ func runPairs(c PairCase) (vstat.Outcome, error) {
 	}
 	if out.NonTrivial {
 		out.Classes = append(out.Classes, "one-to-one-third-parties")
+	}
+	if related > 0 {
+		out.Classes = append(out.Classes, "one-to-one-related-public-key")
+		vstat.Count("one_to_one_related_keys", int64(related))
 	}
 	vstat.Count("one_to_one_payloads", int64(len(all)))
 	return out, nil
